@@ -182,3 +182,17 @@ pub proof fn @f@_lemma_prod_ref(s: Seq<&@F@>, accs: Seq<@F@>, n: int)
     }
 }
 """
+
+
+def stub_items(f):
+    """the operator impls of ops.rs as contract-carrying stubs (SpecImpl + external_body), proved in ops_<f>"""
+    import dataclasses
+    u = unit(f)
+    out = []
+    for it in u.items:
+        if it.mode == "stub":
+            out.append(it)        # wrapper stubs (proved in wrap64/wrap32)
+        else:
+            fns = [dataclasses.replace(fn, preamble="", epilogue="", before_tail="", subst=[]) for fn in it.fns]
+            out.append(dataclasses.replace(it, mode="stub", fns=fns, proved_in=f"ops_{f}"))
+    return out, u.lemmas
